@@ -79,3 +79,23 @@ func idTypFromOwnAttributes(c *cx, id string) {
 	}
 	c.r.Floor(id, "attribute values taken in getIDTyp", n, 2)
 }
+
+// attrGetNotUsed (C05.16 / C06.23 / C07.12 / C13.23): the namespace-blind
+// lookup internal/attr.Get has no caller in library code: every protocol
+// attribute of a stanza (id, type, to, from, sid, ...) is looked up as the
+// element's own attribute (attr.Own, getIDTyp). A transmit helper that finds
+// "the id" with attr.Get takes a foreign x:id="" for the stanza's id and
+// overwrites it; a reply helper addresses the reply to x:from.
+func attrGetNotUsed(c *cx, id string) {
+	n := 0
+	for _, f := range c.allFns() {
+		if f.Body == nil {
+			continue
+		}
+		for _, cl := range f.CallsDeep("internal/attr.Get") {
+			c.r.Check(id, f, "namespace-blind attribute lookup", "C: library code looks attributes up by their full name (attr.Own / getIDTyp), never with attr.Get, which matches a local name in any namespace", cl.Pos(), false, "a foreign-namespace attribute of the same local name is taken for the stanza's own")
+		}
+		n += len(f.Calls("internal/attr.Own")) + len(f.Calls("xmpp.getIDTyp"))
+	}
+	c.r.Floor(id, "own-attribute lookups in the library", n, 10)
+}
